@@ -1051,8 +1051,8 @@ Proof.
           with (snd (sort_group desc fill L D)).
         rewrite sort_group_data. f_equal. unfold zlen. lia.
       + rewrite G2. apply sort_group_data. }
-  split.
-  - (* the result is canonical *)
+  assert (Hcy : canonical Z (mkCOO [R; L] (zip2 gc ri) d' fill)).
+  { (* the result is canonical *)
     assert (Hri_len : length ri = length gc) by lia.
     repeat split; cbn [c_shape c_coords c_data].
     + (* in range *)
@@ -1073,35 +1073,15 @@ Proof.
       destruct (Z.le_gt_cases 0 r) as [Hr0|Hr0].
       * destruct (Hgroup r Hr0) as [fcn [_ [Hpl _]]]. rewrite Hpl. apply place_bounds. lia.
       * rewrite sel_none; [constructor|]. eapply Forall_impl; [|exact Hgr]. intros; cbn beta in *. lia.
-    + unfold zip2. rewrite map_length, combine_length. lia.
-  - intros r Hr0.
-    assert (Hcy : canonical Z (mkCOO [R; L] (zip2 gc ri) d' fill) -> True) by auto.
+    + unfold zip2. rewrite map_length, combine_length. lia. }
+  split; [exact Hcy|].
+  intros r Hr0.
     destruct (Hgroup r ltac:(lia)) as [fcn [HLn [Hpl [Hdt Hperm]]]].
     rewrite (row2_expand R L gc sc data fill r Hlen Hc).
     (* the output row, by the same merge *)
     assert (Hrow_y : row2 (mkCOO [R; L] (zip2 gc ri) d' fill) L r
                      = expand Z.eqb fill (zrange L) (combine (sel r gc ri) (sel r gc d'))).
-    { apply row2_expand; [lia|].
-      (* canonical y was proved in the first half; re-derive it locally *)
-      assert (Hri_len : length ri = length gc) by lia.
-      repeat split; cbn [c_shape c_coords c_data].
-      - apply Forall_forall. intros ix Hix. unfold zip2 in Hix. apply in_map_iff in Hix.
-        destruct Hix as [[g i] [<- Hin]]. cbn [fst snd].
-        pose proof (in_combine_l _ _ _ _ Hin) as Hg.
-        rewrite Forall_forall in Hgr. specialize (Hgr _ Hg). cbn. split; [assumption|]. split; [|exact I].
-        assert (Hi : In i (sel g gc ri)).
-        { apply zip2_In_sel. unfold zip2. apply in_map_iff. exists (g, i). split; [reflexivity|assumption]. }
-        destruct (Hgroup g ltac:(lia)) as [fcn' [HLn' [Hpl' [_ _]]]]. rewrite Hpl' in Hi.
-        destruct (place_bounds desc fill (Z.of_nat fcn') (np_sort_dir desc (sel g gc data)) 0 ltac:(lia)) as [_ Hb].
-        rewrite Forall_forall in Hb. specialize (Hb _ Hi). cbn beta in Hb.
-        assert (length (np_sort_dir desc (sel g gc data)) = length (sel g gc data))
-          by (symmetry; apply Permutation_length, np_sort_dir_perm).
-        lia.
-      - apply (zip2_sorted_iff gc ri Hri_len). split; [assumption|]. intros r'.
-        destruct (Z.le_gt_cases 0 r') as [Hr1|Hr1].
-        + destruct (Hgroup r' Hr1) as [fcn' [_ [Hpl' _]]]. rewrite Hpl'. apply place_bounds. lia.
-        + rewrite sel_none; [constructor|]. eapply Forall_impl; [|exact Hgr]. intros; cbn beta in *. lia.
-      - unfold zip2. rewrite map_length, combine_length. lia. }
+    { apply row2_expand; [lia|exact Hcy]. }
     rewrite Hrow_y, Hpl, Hdt.
     set (D := sel r gc data) in *. set (sd := np_sort_dir desc D) in *.
     assert (Hsdl : length sd = length D) by (symmetry; apply Permutation_length, np_sort_dir_perm).
@@ -1501,63 +1481,6 @@ Qed.
    of the statements that are FALSE of the code as it stands; each is the reason for one named
    domain clause of Corr/C10Judge.v *)
 
-Definition res_dense (r : res (coo Z)) : res (dense Z) :=
-  match r with Ok c => Ok (todense c) | Raise e => Raise e end.
-
-(* D18: sort of a 1-d array of length 1 returns a 0-d array *)
-Lemma sort_api_len1_1d_refuted_proof :
-  exists x axis desc, canonicalb x = true /\ prunedb Z.eqb x = true /\
-    res_dense (ss_sort x axis desc) <> np_sort_axis (todense x) axis desc.
-Proof. exists (mkCOO [1] [[0]] [5] 0), (-1), false. repeat split; vm_compute; congruence. Qed.
-
-(* D18: sort along an axis of length 0 raises instead of returning the (empty) array *)
-Lemma sort_api_len0_axis_refuted_proof :
-  exists x axis desc, canonicalb x = true /\ prunedb Z.eqb x = true /\
-    res_dense (ss_sort x axis desc) <> np_sort_axis (todense x) axis desc.
-Proof. exists (mkCOO [2; 0] [] [] 0), (-1), false. repeat split; vm_compute; congruence. Qed.
-
-(* sort of a 1-d array ignores its axis argument (an out-of-range axis is accepted) *)
-Lemma sort_api_1d_axis_unchecked_refuted_proof :
-  exists x axis desc, canonicalb x = true /\ prunedb Z.eqb x = true /\
-    res_dense (ss_sort x axis desc) <> np_sort_axis (todense x) axis desc.
-Proof. exists (mkCOO [3] [[1]] [5] 0), 1, false. repeat split; vm_compute; congruence. Qed.
-
-(* D17: argmax of a 1-d array with axis=-1 raises *)
-Lemma arg_api_1d_negative_axis_refuted_proof :
-  exists x axis kd, canonicalb x = true /\ prunedb Z.eqb x = true /\
-    res_dense (ss_argminmax true x axis kd) <> np_argbest_axis true (todense x) axis kd.
-Proof. exists (mkCOO [3] [[1]] [4] 0), (Some (-1)), false. repeat split; vm_compute; congruence. Qed.
-
-(* D17: argmax of a zero-size array returns instead of raising *)
-Lemma arg_api_zero_size_refuted_proof :
-  exists x axis kd, canonicalb x = true /\ prunedb Z.eqb x = true /\
-    res_dense (ss_argminmax true x axis kd) <> np_argbest_axis true (todense x) axis kd.
-Proof. exists (mkCOO [0; 3] [] [] 0), (Some 0), false. repeat split; vm_compute; congruence. Qed.
-
-(* D17: the final squeeze() removes every axis of extent 1, not only the reduced one *)
-Lemma arg_api_squeeze_other_singleton_refuted_proof :
-  exists x axis kd, canonicalb x = true /\ prunedb Z.eqb x = true /\
-    res_dense (ss_argminmax true x axis kd) <> np_argbest_axis true (todense x) axis kd.
-Proof.
-  exists (mkCOO [2; 1; 3] [[0; 0; 0]; [0; 0; 2]; [1; 0; 1]] [1; 2; 5] 0), (Some 0), false.
-  repeat split; vm_compute; congruence.
-Qed.
-
-(* D17: keepdims=True with a negative axis puts the kept axis in the wrong place *)
-Lemma arg_api_keepdims_negative_axis_refuted_proof :
-  exists x axis kd, canonicalb x = true /\ prunedb Z.eqb x = true /\
-    res_dense (ss_argminmax true x axis kd) <> np_argbest_axis true (todense x) axis kd.
-Proof.
-  exists (mkCOO [2; 3] [[0; 0]; [0; 2]; [1; 1]] [1; 2; 5] 0), (Some (-1)), true.
-  repeat split; vm_compute; congruence.
-Qed.
-
-(* D17: keepdims=True on a 1-d array returns a 2-d result *)
-Lemma arg_api_1d_keepdims_refuted_proof :
-  exists x axis kd, canonicalb x = true /\ prunedb Z.eqb x = true /\
-    res_dense (ss_argminmax true x axis kd) <> np_argbest_axis true (todense x) axis kd.
-Proof. exists (mkCOO [3] [[1]] [4] 0), (Some 0), true. repeat split; vm_compute; congruence. Qed.
-
 (* without `pruned` the kernel theorem fails: a stored value equal to the fill value before the
    first unstored position is skipped by the first-gap search *)
 Lemma argminmax_first_unpruned_refuted_proof :
@@ -1584,3 +1507,613 @@ Proof. exists (mkCOO [3] [[0]; [1]] [2; 5] 2). split; vm_compute; congruence. Qe
 Lemma nonzero_unpruned_refuted_proof :
   exists x, canonicalb x = true /\ c_fill x = 0 /\ c_coords x <> np_argwhere (todense x).
 Proof. exists (mkCOO [3] [[0]; [2]] [0; 5] 0). repeat split; vm_compute; congruence. Qed.
+
+
+(* ================================================================== the sort wrapper
+   On a 2-d array along its last axis and on a 1-d array the plumbing of `sort` (normalize_axis,
+   moveaxis, the two reshapes, squeeze(0)) is the identity, so sparse.sort IS the kernel there. *)
+
+Lemma zip2_cols (R L : Z) (cs : list idx) :
+  Forall (in_range [R; L]) cs ->
+  zip2 (map (fun ix => znth ix 0) cs) (map (fun ix => znth ix 1) cs) = cs.
+Proof.
+  induction 1 as [|ix cs Hix _ IH]; [reflexivity|].
+  cbn [map]. rewrite zip2_cons, IH. f_equal.
+  destruct ix as [|a [|b [|c t]]]; cbn in Hix; try tauto; try reflexivity.
+Qed.
+
+Definition last_axis_2d (axis : Z) : Prop := axis = 1 \/ axis = -1.
+
+Lemma ss_sort_2d_last (R L axis : Z) (cs : list idx) (data : list Z) (fill : Z) (desc : bool) :
+  last_axis_2d axis ->
+  let gc := map (fun ix => znth ix 0) cs in
+  let sc := map (fun ix => znth ix 1) cs in
+  ss_sort (mkCOO [R; L] cs data fill) axis desc
+  = Ok (let '(g, ri, d) := sort_coo gc sc data fill L desc in mkCOO [R; L] (zip2 g ri) d fill).
+Proof.
+  intros Hax gc sc. unfold ss_sort.
+  assert (Hn : norm_axis (ndimZ (mkCOO [R; L] cs data fill)) axis = Some 1%nat)
+    by (destruct Hax as [-> | ->]; reflexivity).
+  rewrite Hn.
+  change (ndimZ (mkCOO [R; L] cs data fill) =? 1) with false. cbv iota.
+  change (ss_moveaxis (mkCOO [R; L] cs data fill) (Z.of_nat 1) (-1)) with (Ok (mkCOO [R; L] cs data fill)).
+  cbn [bind c_shape last removelast].
+  replace (size [R]) with R by (cbn [size fold_right]; lia).
+  unfold ss_reshape at 1. cbn [c_shape]. rewrite idx_eqb_refl. cbn [bind c_coords c_data c_fill c_shape].
+  fold gc sc. destruct (sort_coo gc sc data fill L desc) as [[g ri] d].
+  unfold ss_reshape at 1. cbn [c_shape]. rewrite idx_eqb_refl. cbn [bind].
+  change (ss_moveaxis (mkCOO [R; L] (zip2 g ri) d fill) (-1) (Z.of_nat 1))
+    with (Ok (mkCOO [R; L] (zip2 g ri) d fill)).
+  cbn [bind]. reflexivity.
+Qed.
+
+(* sparse.sort along the last axis of a canonical 2-d array: the result is canonical, has the
+   same shape and fill value, and every row is np.sort (reversed when descending) of the dense row *)
+Lemma sort_2d_last_axis_proof (R L axis : Z) (cs : list idx) (data : list Z) (fill : Z) (desc : bool) :
+  last_axis_2d axis -> 0 <= L ->
+  canonical Z (mkCOO [R; L] cs data fill) ->
+  exists y, ss_sort (mkCOO [R; L] cs data fill) axis desc = Ok y
+    /\ c_shape y = [R; L] /\ c_fill y = fill /\ canonical Z y
+    /\ forall r, 0 <= r < R -> row2 y L r = np_sort_dir desc (row2 (mkCOO [R; L] cs data fill) L r).
+Proof.
+  intros Hax HL Hc. pose proof Hc as [Hr [Hs Hl]]. cbn [c_shape c_coords c_data] in Hr, Hs, Hl.
+  rewrite (ss_sort_2d_last R L axis cs data fill desc Hax). cbv zeta.
+  set (gc := map (fun ix => znth ix 0) cs). set (sc := map (fun ix => znth ix 1) cs).
+  assert (Hz : zip2 gc sc = cs) by (apply (zip2_cols R L); assumption).
+  assert (Hlen : length sc = length gc) by (unfold sc, gc; rewrite !map_length; reflexivity).
+  destruct (sort_coo gc sc data fill L desc) as [[g ri] d] eqn:E.
+  assert (Hg : g = gc).
+  { unfold sort_coo in E. destruct (sort_scan desc fill L gc data (-1) []). inversion E. reflexivity. }
+  subst g. rewrite <- Hz in Hc.
+  destruct (sort_coo_row_proof gc sc data fill R L desc ri d Hlen HL Hc E) as [Hcy Hrows].
+  eexists. split; [reflexivity|]. repeat split; try assumption; try apply Hcy.
+  intros r Hr0. rewrite <- Hz. apply is_sort_of_unique. apply Hrows. assumption.
+Qed.
+
+(* ---- 1-d input: x[None, :], the kernel, squeeze(0) *)
+
+Lemma lookup_cons0 (es : list (idx * Z)) ix :
+  lookup (map (fun kv => (0 :: fst kv, snd kv)) es) (0 :: ix) = lookup es ix.
+Proof.
+  induction es as [|[k v] r IH]; [reflexivity|]. cbn [map lookup fst snd]. rewrite IH.
+  destruct (lookup r ix); [reflexivity|]. cbn [idx_eqb]. change (0 =? 0) with true. reflexivity.
+Qed.
+
+Lemma combine_map_cons0 (cs : list idx) (data : list Z) :
+  combine (map (cons 0) cs) data = map (fun kv => (0 :: fst kv, snd kv)) (combine cs data).
+Proof.
+  revert data. induction cs as [|c cs IH]; intros [|d data]; try reflexivity. cbn. rewrite IH. reflexivity.
+Qed.
+
+Lemma den_newaxis_front (x : coo Z) ix : den (newaxis_front x) (0 :: ix) = den x ix.
+Proof.
+  unfold den, entries, newaxis_front. cbn [c_coords c_data c_fill].
+  rewrite combine_map_cons0, lookup_cons0. reflexivity.
+Qed.
+
+Lemma SS_map_cons_inv i l : StronglySorted lex_lt (map (cons i) l) -> StronglySorted lex_lt l.
+Proof.
+  induction l as [|a l IH]; cbn; intros H; [constructor|].
+  inversion H as [|? ? Hs Hall]; subst. constructor; [apply IH; assumption|].
+  rewrite Forall_forall in *. intros b Hb. specialize (Hall (i :: b) (in_map _ _ _ Hb)).
+  cbn in Hall. destruct Hall as [?|[_ ?]]; [lia|assumption].
+Qed.
+
+Lemma canonical_newaxis_front (x : coo Z) :
+  canonical Z x <-> canonical Z (newaxis_front x).
+Proof.
+  unfold canonical, newaxis_front. cbn [c_shape c_coords c_data]. rewrite map_length.
+  split; intros [Hr [Hs Hl]]; repeat split; try assumption.
+  - apply Forall_forall. intros ix Hix. apply in_map_iff in Hix. destruct Hix as [t [<- Ht]].
+    rewrite Forall_forall in Hr. cbn. split; [lia|apply Hr; assumption].
+  - apply SS_map_cons. assumption.
+  - apply Forall_forall. intros ix Hix. rewrite Forall_forall in Hr.
+    specialize (Hr (0 :: ix) (in_map _ _ _ Hix)). cbn in Hr. tauto.
+  - apply (SS_map_cons_inv 0). assumption.
+Qed.
+
+Definition flat1 (c : coo Z) (n : Z) : list Z := map (fun j => den c [j]) (zrange n).
+
+Lemma row2_newaxis_front (x : coo Z) n : row2 (newaxis_front x) n 0 = flat1 x n.
+Proof. unfold row2, flat1. apply map_ext. intros j. apply den_newaxis_front. Qed.
+
+Lemma zip2_zero_cols (n : Z) (cs : list idx) :
+  Forall (in_range [1; n]) cs ->
+  cs = map (cons 0) (map (fun ix => remove_nth ix 0) cs).
+Proof.
+  induction 1 as [|ix cs Hix _ IH]; [reflexivity|]. cbn [map]. rewrite <- IH. f_equal.
+  destruct ix as [|a [|b [|c t]]]; cbn in Hix; try tauto.
+  unfold remove_nth. cbn. f_equal. lia.
+Qed.
+
+Lemma ss_sort_1d (n axis : Z) (cs : list idx) (data : list Z) (fill : Z) (desc : bool) :
+  (axis = 0 \/ axis = -1) ->
+  let cs2 := map (cons 0) cs in
+  let gc := map (fun ix => znth ix 0) cs2 in
+  let sc := map (fun ix => znth ix 1) cs2 in
+  ss_sort (mkCOO [n] cs data fill) axis desc
+  = Ok (let '(g, ri, d) := sort_coo gc sc data fill n desc in
+        mkCOO [n] (map (fun ix => remove_nth ix 0) (zip2 g ri)) d fill).
+Proof.
+  intros Hax cs2 gc sc. unfold ss_sort.
+  assert (Hna : norm_axis (ndimZ (mkCOO [n] cs data fill)) axis = Some 0%nat)
+    by (destruct Hax as [-> | ->]; reflexivity).
+  rewrite Hna. change (ndimZ (mkCOO [n] cs data fill) =? 1) with true. cbv iota.
+  change (newaxis_front (mkCOO [n] cs data fill)) with (mkCOO [1; n] cs2 data fill).
+  change (ss_moveaxis (mkCOO [1; n] cs2 data fill) (-1) (-1)) with (Ok (mkCOO [1; n] cs2 data fill)).
+  cbn [bind c_shape last removelast].
+  replace (size [1]) with 1 by reflexivity.
+  unfold ss_reshape at 1. cbn [c_shape]. rewrite idx_eqb_refl. cbn [bind c_coords c_data c_fill c_shape].
+  fold gc sc. destruct (sort_coo gc sc data fill n desc) as [[g ri] d].
+  unfold ss_reshape at 1. cbn [c_shape]. rewrite idx_eqb_refl. cbn [bind].
+  change (ss_moveaxis (mkCOO [1; n] (zip2 g ri) d fill) (-1) (-1)) with (Ok (mkCOO [1; n] (zip2 g ri) d fill)).
+  cbn [bind]. change (ndimZ (mkCOO [1; n] (zip2 g ri) d fill) =? ndimZ (mkCOO [n] cs data fill)) with false.
+  cbv iota. unfold ss_squeeze_axis. cbn [c_shape c_coords c_data c_fill].
+  change (znth [1; n] 0 =? 1) with true. cbn [negb]. reflexivity.
+Qed.
+
+(* sparse.sort of a canonical 1-d array: canonical 1-d result whose dense data is np.sort
+   (reversed when descending) of the dense input *)
+Lemma sort_1d_proof (n axis : Z) (cs : list idx) (data : list Z) (fill : Z) (desc : bool) :
+  (axis = 0 \/ axis = -1) -> 0 <= n ->
+  canonical Z (mkCOO [n] cs data fill) ->
+  exists y, ss_sort (mkCOO [n] cs data fill) axis desc = Ok y
+    /\ c_shape y = [n] /\ c_fill y = fill /\ canonical Z y
+    /\ flat1 y n = np_sort_dir desc (flat1 (mkCOO [n] cs data fill) n).
+Proof.
+  intros Hax Hn Hc. set (x := mkCOO [n] cs data fill) in *.
+  pose proof (proj1 (canonical_newaxis_front x) Hc) as Hc2.
+  change (newaxis_front x) with (mkCOO [1; n] (map (cons 0) cs) data fill) in Hc2.
+  unfold x. rewrite (ss_sort_1d n axis cs data fill desc Hax). cbv zeta.
+  set (cs2 := map (cons 0) cs) in *.
+  set (gc := map (fun ix => znth ix 0) cs2). set (sc := map (fun ix => znth ix 1) cs2).
+  pose proof Hc2 as [Hr2 _]. cbn [c_shape c_coords] in Hr2.
+  assert (Hz : zip2 gc sc = cs2) by (apply (zip2_cols 1 n); assumption).
+  assert (Hlen : length sc = length gc) by (unfold sc, gc; rewrite !map_length; reflexivity).
+  destruct (sort_coo gc sc data fill n desc) as [[g ri] d] eqn:E.
+  assert (Hg : g = gc).
+  { unfold sort_coo in E. destruct (sort_scan desc fill n gc data (-1) []). inversion E. reflexivity. }
+  subst g. rewrite <- Hz in Hc2.
+  destruct (sort_coo_row_proof gc sc data fill 1 n desc ri d Hlen Hn Hc2 E) as [Hcy Hrows].
+  set (y := mkCOO [n] (map (fun ix => remove_nth ix 0) (zip2 gc ri)) d fill).
+  pose proof Hcy as [Hry _]. cbn [c_shape c_coords] in Hry.
+  assert (Hy : mkCOO [1; n] (zip2 gc ri) d fill = newaxis_front y).
+  { unfold newaxis_front, y. cbn [c_shape c_coords c_data c_fill]. f_equal.
+    apply (zip2_zero_cols n). assumption. }
+  exists y. split; [reflexivity|]. repeat split.
+  - apply canonical_newaxis_front. rewrite <- Hy. assumption.
+  - apply canonical_newaxis_front. rewrite <- Hy. assumption.
+  - apply canonical_newaxis_front. rewrite <- Hy. assumption.
+  - rewrite <- (row2_newaxis_front y), <- Hy.
+    rewrite (is_sort_of_unique desc _ _ (Hrows 0 ltac:(lia))). f_equal.
+    rewrite Hz. apply (row2_newaxis_front x).
+Qed.
+
+(* ================================================================== sort of a 2-d array along its FIRST axis:
+   moveaxis is the transposition (which re-sorts the entries), then the kernel, then the
+   transposition back *)
+
+Definition is2 (k : idx) : Prop := exists a b, k = [a; b].
+Definition swap2 (ix : idx) : idx := map (znth ix) [1; 0].
+
+Lemma swap2_pair a b : swap2 [a; b] = [b; a].
+Proof. reflexivity. Qed.
+
+Definition ele (e1 e2 : idx * Z) : Prop := ~ lex_lt (fst e2) (fst e1).
+
+Lemma lex2_total a1 a2 b1 b2 : ~ lex_lt [b1; b2] [a1; a2] -> [a1; a2] <> [b1; b2] -> lex_lt [a1; a2] [b1; b2].
+Proof.
+  cbn. intros H Hne. destruct (Z.lt_trichotomy a1 b1) as [?|[->|?]]; [left; assumption| |exfalso; apply H; left; assumption].
+  right. split; [reflexivity|]. left.
+  destruct (Z.lt_trichotomy a2 b2) as [?|[->|?]]; [assumption|contradiction|].
+  exfalso. apply H. right. split; [reflexivity|]. left. assumption.
+Qed.
+
+Lemma ele_trans2 e1 e2 e3 : is2 (fst e1) -> is2 (fst e2) -> is2 (fst e3) -> ele e1 e2 -> ele e2 e3 -> ele e1 e3.
+Proof.
+  unfold ele. intros [a1 [a2 ->]] [b1 [b2 ->]] [c1 [c2 ->]]. cbn. intros H1 H2 H3. lia.
+Qed.
+
+Lemma insert_entry_perm e l : Permutation (e :: l) (insert_entry e l).
+Proof.
+  induction l as [|y r IH]; cbn; [reflexivity|].
+  destruct (lex_ltb (fst y) (fst e)); [|reflexivity].
+  etransitivity; [apply perm_swap|]. apply perm_skip, IH.
+Qed.
+
+Lemma sort_entries_perm es : Permutation es (sort_entries es).
+Proof.
+  induction es as [|e es IH]; cbn; [constructor|].
+  etransitivity; [apply perm_skip, IH|apply insert_entry_perm].
+Qed.
+
+Lemma insert_entry_sorted e l :
+  is2 (fst e) -> Forall (fun y => is2 (fst y)) l ->
+  StronglySorted ele l -> StronglySorted ele (insert_entry e l).
+Proof.
+  intros He Hl Hs. induction Hs as [|y r Hs IH Hall]; cbn.
+  - constructor; constructor.
+  - inversion Hl as [|? ? Hy Hr]; subst. rewrite Forall_forall in Hall.
+    destruct (lex_ltb (fst y) (fst e)) eqn:E.
+    + apply lex_ltb_spec in E. constructor; [apply IH; assumption|].
+      apply Forall_forall. intros z Hz.
+      apply (Permutation_in _ (Permutation_sym (insert_entry_perm e r))) in Hz.
+      destruct Hz as [<-|Hz]; [|apply Hall; assumption].
+      unfold ele. intros Hlt. apply (lex_lt_irrefl (fst e)). eapply lex_lt_trans; eassumption.
+    + assert (Hey : ele e y).
+      { unfold ele. intros Hlt. apply lex_ltb_spec in Hlt. congruence. }
+      constructor; [constructor; [assumption|apply Forall_forall; assumption]|].
+      constructor; [assumption|]. apply Forall_forall. intros z Hz.
+      rewrite Forall_forall in Hr. apply (ele_trans2 e y z); auto.
+Qed.
+
+Lemma sort_entries_sorted es :
+  Forall (fun y => is2 (fst y)) es -> StronglySorted ele (sort_entries es).
+Proof.
+  induction 1 as [|e es He Hes IH]; cbn; [constructor|].
+  apply insert_entry_sorted; [assumption| |assumption].
+  apply Forall_forall. intros y Hy.
+  apply (Permutation_in _ (Permutation_sym (sort_entries_perm es))) in Hy.
+  rewrite Forall_forall in Hes. auto.
+Qed.
+
+Lemma ele_strict (l : list (idx * Z)) :
+  Forall (fun y => is2 (fst y)) l -> NoDup (map fst l) -> StronglySorted ele l ->
+  StronglySorted lex_lt (map fst l).
+Proof.
+  intros Hl Hnd Hs. induction Hs as [|y r Hs IH Hall]; cbn; [constructor|].
+  inversion Hl as [|? ? Hy Hr]; subst. cbn in Hnd. inversion Hnd as [|? ? Hni Hnd']; subst.
+  constructor; [apply IH; assumption|]. apply Forall_forall. intros k Hk.
+  apply in_map_iff in Hk. destruct Hk as [z [<- Hz]].
+  rewrite Forall_forall in Hall, Hr. specialize (Hall z Hz). specialize (Hr z Hz).
+  destruct Hy as [a1 [a2 Ea]], Hr as [b1 [b2 Eb]]. unfold ele in Hall. rewrite Ea, Eb in *.
+  apply lex2_total; [assumption|]. intros Heq. apply Hni. rewrite Heq, <- Eb. apply in_map. assumption.
+Qed.
+
+Lemma combine_fst_snd {A B} (l : list (A * B)) : combine (map fst l) (map snd l) = l.
+Proof. induction l as [|[a b] l IH]; cbn; congruence. Qed.
+
+Lemma in_range2_is2 R L ix : in_range [R; L] ix -> is2 ix.
+Proof. destruct ix as [|a [|b [|c t]]]; cbn; try tauto. intros _. exists a, b. reflexivity. Qed.
+
+Lemma swap2_NoDup (l : list idx) : Forall is2 l -> NoDup l -> NoDup (map swap2 l).
+Proof.
+  intros Hf Hnd. induction Hnd as [|ix c Hni Hnd IH]; cbn; constructor.
+  - inversion Hf as [|? ? [a [b ->]] Hf']; subst. intros Hin. apply in_map_iff in Hin.
+    destruct Hin as [k [Hk Hkin]]. rewrite Forall_forall in Hf'. destruct (Hf' k Hkin) as [a' [b' ->]].
+    rewrite !swap2_pair in Hk. inversion Hk; subst. contradiction.
+  - apply IH. inversion Hf; assumption.
+Qed.
+
+(* the transposition of a canonical 2-d array *)
+Section Transpose2.
+  Variables (R L : Z) (cs : list idx) (data : list Z) (fill : Z).
+  Let x := mkCOO [R; L] cs data fill.
+  Hypothesis Hc : canonical Z x.
+
+  Let es' := sort_entries (combine (map swap2 cs) data).
+  Let tx := mkCOO [L; R] (map fst es') (map snd es') fill.
+
+  Lemma transpose2_eq : ss_transpose x [1; 0] = tx.
+  Proof. reflexivity. Qed.
+
+  Lemma cs_is2 : Forall is2 cs.
+  Proof.
+    destruct Hc as [Hr _]. cbn [c_shape c_coords x] in Hr. eapply Forall_impl; [|exact Hr].
+    intros ix. apply in_range2_is2.
+  Qed.
+
+  Lemma es'_In k v : In (k, v) es' <-> In (swap2 k, v) (combine cs data) /\ is2 k.
+  Proof.
+    unfold es'. split.
+    - intros H. apply (Permutation_in _ (Permutation_sym (sort_entries_perm _))) in H.
+      assert (G : forall (c : list idx) (d : list Z), Forall is2 c -> In (k, v) (combine (map swap2 c) d) ->
+                  In (swap2 k, v) (combine c d) /\ is2 k).
+      { induction c as [|ix c IH]; intros [|dv d] Hf Hin; try destruct Hin.
+        - inversion Hf as [|? ? [a [b ->]] _]; subst. inversion H0; subst. split; [left; reflexivity|].
+          exists b, a. reflexivity.
+        - inversion Hf; subst. destruct (IH d H4 H0). split; [right|]; assumption. }
+      apply G; [apply cs_is2|assumption].
+    - intros [H [a [b ->]]]. apply (Permutation_in _ (sort_entries_perm _)).
+      assert (G : forall (c : list idx) (d : list Z), In ([b; a], v) (combine c d) ->
+                  In ([a; b], v) (combine (map swap2 c) d)).
+      { induction c as [|ix c IH]; intros [|dv d] Hin; try destruct Hin.
+        - inversion H0; subst. left. reflexivity.
+        - right. apply IH. assumption. }
+      apply G. exact H.
+  Qed.
+
+  Lemma keys_is2 : Forall (fun y : idx * Z => is2 (fst y)) es'.
+  Proof.
+    apply Forall_forall. intros [k v] Hin. apply es'_In in Hin. cbn. tauto.
+  Qed.
+
+  Lemma swapped_NoDup : NoDup (map swap2 cs).
+  Proof.
+    destruct Hc as [_ [Hs _]]. cbn [c_coords x] in Hs. apply SS_lex_NoDup in Hs.
+    apply swap2_NoDup; [apply cs_is2|assumption].
+  Qed.
+
+  Lemma transpose2_canonical : canonical Z tx.
+  Proof.
+    pose proof Hc as [Hr [Hs Hl]]. cbn [c_shape c_coords c_data x] in Hr, Hs, Hl.
+    unfold tx. repeat split; cbn [c_shape c_coords c_data].
+    - apply Forall_forall. intros k Hk. apply in_map_iff in Hk. destruct Hk as [[k' v] [<- Hin]].
+      apply es'_In in Hin. destruct Hin as [Hin [a [b ->]]]. cbn [fst]. rewrite swap2_pair in Hin.
+      apply in_combine_l in Hin. rewrite Forall_forall in Hr. specialize (Hr _ Hin). cbn in *. tauto.
+    - apply ele_strict; [apply keys_is2| |apply sort_entries_sorted].
+      + eapply Permutation_NoDup; [apply Permutation_map, sort_entries_perm|].
+        rewrite combine_map_fst by (rewrite map_length; lia). apply swapped_NoDup.
+      + apply Forall_forall. intros [k v] Hin. cbn.
+        apply in_combine_l in Hin. apply in_map_iff in Hin. destruct Hin as [ix [<- Hix]].
+        pose proof cs_is2 as Hf. rewrite Forall_forall in Hf. destruct (Hf ix Hix) as [a [b ->]].
+        exists b, a. reflexivity.
+    - rewrite !map_length. reflexivity.
+  Qed.
+
+  Lemma transpose2_den i j : den tx [j; i] = den x [i; j].
+  Proof.
+    destruct (in_dec (list_eq_dec Z.eq_dec) [i; j] cs) as [Hin|Hnin].
+    - assert (exists v, In ([i; j], v) (combine cs data)) as [v Hv].
+      { pose proof Hc as [_ [_ Hl]]. cbn [c_coords c_data x] in Hl. clear - Hin Hl.
+        revert data Hl. induction cs as [|c l IH]; intros [|d dd] Hl; cbn in *; try tauto; try discriminate.
+        destruct Hin as [->|Hin]; [exists d; left; reflexivity|].
+        destruct (IH Hin dd ltac:(lia)) as [v Hv]. exists v. right. assumption. }
+      rewrite (den_stored Z x [i; j] v Hc) by exact Hv.
+      apply (den_stored Z tx [j; i] v transpose2_canonical).
+      unfold entries, tx. cbn [c_coords c_data]. rewrite combine_fst_snd. apply es'_In.
+      split; [exact Hv|exists j, i; reflexivity].
+    - rewrite (den_unstored Z x [i; j]) by exact Hnin.
+      apply (den_unstored Z tx [j; i]). unfold tx. cbn [c_coords]. intros Hk.
+      apply in_map_iff in Hk. destruct Hk as [[k v] [Ek Hkin]]. cbn in Ek. subst k.
+      apply es'_In in Hkin. destruct Hkin as [Hkin _]. apply in_combine_l in Hkin. contradiction.
+  Qed.
+End Transpose2.
+
+Definition col2 (c : coo Z) (R k : Z) : list Z := map (fun i => den c [i; k]) (zrange R).
+
+Lemma sort_2d_first_axis_proof (R L axis : Z) (cs : list idx) (data : list Z) (fill : Z) (desc : bool) :
+  (axis = 0 \/ axis = -2) -> 0 <= R ->
+  canonical Z (mkCOO [R; L] cs data fill) ->
+  exists y, ss_sort (mkCOO [R; L] cs data fill) axis desc = Ok y
+    /\ c_shape y = [R; L] /\ c_fill y = fill /\ canonical Z y
+    /\ forall k, 0 <= k < L -> col2 y R k = np_sort_dir desc (col2 (mkCOO [R; L] cs data fill) R k).
+Proof.
+  intros Hax HR Hc. set (x := mkCOO [R; L] cs data fill) in *.
+  pose proof (transpose2_canonical R L cs data fill Hc) as Hct.
+  pose proof (transpose2_den R L cs data fill Hc) as Hdt.
+  set (tx := mkCOO [L; R] _ _ fill) in Hct, Hdt.
+  unfold ss_sort.
+  assert (Hn : norm_axis (ndimZ x) axis = Some 0%nat) by (destruct Hax as [-> | ->]; reflexivity).
+  rewrite Hn. change (ndimZ x =? 1) with false. cbv iota.
+  change (ss_moveaxis x (Z.of_nat 0) (-1)) with (Ok tx). cbn [bind].
+  (* the middle part is sort along the last axis of tx *)
+  destruct (sort_2d_last_axis_proof L R (-1) (c_coords tx) (c_data tx) fill desc (or_intror eq_refl) HR Hct)
+    as [y2 [Hy2 [Hsh [Hfl [Hcy Hrow]]]]].
+  rewrite (ss_sort_2d_last L R (-1) (c_coords tx) (c_data tx) fill desc (or_intror eq_refl)) in Hy2.
+  cbv zeta in Hy2.
+  change (c_shape tx) with [L; R]. cbn [last removelast].
+  replace (size [L]) with L by (cbn [size fold_right]; lia).
+  unfold ss_reshape at 1. change (c_shape tx) with [L; R]. rewrite idx_eqb_refl. cbn [bind].
+  change (c_fill tx) with fill. change (c_shape tx) with [L; R].
+  destruct (sort_coo (map (fun ix => znth ix 0) (c_coords tx)) (map (fun ix => znth ix 1) (c_coords tx))
+                     (c_data tx) fill R desc) as [[g ri] d].
+  inversion Hy2 as [Ey2]. clear Hy2.
+  unfold ss_reshape at 1. cbn [c_shape]. rewrite idx_eqb_refl. cbn [bind].
+  rewrite Ey2. destruct y2 as [sh2 c2 d2 f2]. cbn [c_shape c_fill] in Hsh, Hfl. subst sh2 f2.
+  change (ss_moveaxis (mkCOO [L; R] c2 d2 fill) (-1) (Z.of_nat 0))
+    with (Ok (ss_transpose (mkCOO [L; R] c2 d2 fill) [1; 0])).
+  cbn [bind].
+  pose proof (transpose2_canonical L R c2 d2 fill Hcy) as Hcty.
+  pose proof (transpose2_den L R c2 d2 fill Hcy) as Hdty.
+  rewrite (transpose2_eq L R c2 d2 fill).
+  set (y := mkCOO [R; L] _ _ fill) in Hcty, Hdty |- *.
+  change (ndimZ y =? ndimZ x) with true. cbv iota.
+  exists y. split; [reflexivity|]. repeat split; try apply Hcty.
+  intros k Hk. unfold col2.
+  transitivity (row2 (mkCOO [L; R] c2 d2 fill) R k).
+  - unfold row2. apply map_ext. intros i. apply Hdty.
+  - rewrite (Hrow k Hk). f_equal. unfold row2. apply map_ext. intros i. apply Hdt.
+Qed.
+
+(* ================================================================== argmax / argmin of a 2-d array along its FIRST
+   axis: no transposition of the input; the kernel's answer is pruned, reshaped to (1, M) and,
+   without keepdims, squeezed to (M,) *)
+
+Lemma alist_get_In k v (l : list (Z * Z)) d :
+  NoDup (map fst l) -> In (k, v) l -> alist_get k l d = v.
+Proof.
+  induction l as [|[a w] r IH]; intros Hnd Hin; [destruct Hin|].
+  cbn in Hnd. inversion Hnd as [|? ? Hni Hnd']; subst. cbn [alist_get].
+  destruct Hin as [Hin|Hin].
+  - inversion Hin; subst. rewrite Z.eqb_refl. reflexivity.
+  - destruct (Z.eqb_spec a k) as [->|_]; [|apply IH; assumption].
+    exfalso. apply Hni. apply in_map_iff. exists (k, v). split; [reflexivity|assumption].
+Qed.
+
+Lemma alist_get_notin k (l : list (Z * Z)) d : ~ In k (map fst l) -> alist_get k l d = d.
+Proof.
+  induction l as [|[a w] r IH]; intros Hn; [reflexivity|]. cbn [alist_get].
+  destruct (Z.eqb_spec a k) as [->|_]; [exfalso; apply Hn; left; reflexivity|].
+  apply IH. intros Hin. apply Hn. right. assumption.
+Qed.
+
+Lemma NoDup_emb (emb : Z -> idx) (l : list (idx * Z)) :
+  (forall a b, emb a = emb b -> a = b) ->
+  (forall e, In e l -> exists i, fst e = [i]) ->
+  NoDup (map fst l) -> NoDup (map (fun e => emb (znth (fst e) 0)) l).
+Proof.
+  intros Hinj. induction l as [|e l IH]; intros Hkeys Hnd; cbn; [constructor|].
+  cbn in Hnd. inversion Hnd as [|? ? Hni Hnd']; subst. constructor.
+  - intros Hin. apply in_map_iff in Hin. destruct Hin as [e' [Ee He']].
+    destruct (Hkeys e (or_introl eq_refl)) as [i Ei]. destruct (Hkeys e' (or_intror He')) as [i' Ei'].
+    apply Hinj in Ee. destruct e as [ke ve], e' as [ke' ve']. cbn [fst] in *. subst ke ke'.
+    unfold znth in Ee. cbn in Ee. subst i'.
+    apply Hni. apply in_map_iff. exists ([i], ve'). split; [reflexivity|assumption].
+  - apply IH; [|assumption]. intros e' He'. apply Hkeys. right. assumption.
+Qed.
+
+(* the pruned 1-d result array, with its keys embedded by an injective map emb, read at emb k *)
+Lemma den_pruned_result (emb : Z -> idx) (sh : shape) (ri rd : list Z) k :
+  (forall a b, emb a = emb b -> a = b) ->
+  NoDup ri -> length rd = length ri ->
+  let es := filter (fun e => negb (snd e =? 0)) (combine (map (fun i => [i]) ri) rd) in
+  den (mkCOO sh (map (fun e => emb (znth (fst e) 0)) es) (map snd es) 0) (emb k)
+  = alist_get k (combine ri rd) 0.
+Proof.
+  intros Hinj Hnd Hlen es.
+  set (z := mkCOO sh (map (fun e => emb (znth (fst e) 0)) es) (map snd es) 0).
+  assert (Hes : forall i v, In ([i], v) es <-> In (i, v) (combine ri rd) /\ v <> 0).
+  { intros i v. unfold es. rewrite filter_In. cbn [snd]. rewrite negb_true_iff, Z.eqb_neq.
+    assert (G : In ([i], v) (combine (map (fun i => [i]) ri) rd) <-> In (i, v) (combine ri rd)).
+    { clear. revert rd. induction ri as [|a r IH]; intros [|b rd]; cbn; try tauto.
+      rewrite IH. split; intros [H|H]; auto; left; inversion H; reflexivity. }
+    rewrite G. reflexivity. }
+  assert (Hkeys : forall e, In e es -> exists i, fst e = [i]).
+  { intros [kk v] Hin. unfold es in Hin. apply filter_In in Hin. destruct Hin as [Hin _].
+    apply in_combine_l in Hin. apply in_map_iff in Hin. destruct Hin as [i [<- _]]. exists i. reflexivity. }
+  assert (Hent : entries z = map (fun e => (emb (znth (fst e) 0), snd e)) es).
+  { unfold entries, z. cbn [c_coords c_data]. clear. induction es as [|e l IH]; cbn; congruence. }
+  assert (Hndk : NoDup (map fst (entries z))).
+  { rewrite Hent, map_map. cbn [fst].
+    assert (Hnd2 : NoDup (map fst es)).
+    { unfold es. clear - Hnd Hlen. revert rd Hlen. induction Hnd as [|a r Hni Hnd IH]; intros [|b rd] Hlen; try discriminate; [constructor|].
+      cbn [map combine filter snd]. cbn in Hlen.
+      assert (Hrest : ~ In [a] (map fst (filter (fun e => negb (snd e =? 0)) (combine (map (fun i => [i]) r) rd)))).
+      { intros Hin. apply in_map_iff in Hin. destruct Hin as [[kk v] [Ek Hin]]. cbn in Ek. subst kk.
+        apply filter_In in Hin. destruct Hin as [Hin _]. apply in_combine_l in Hin.
+        apply in_map_iff in Hin. destruct Hin as [i [Ei Hi]]. inversion Ei; subst. contradiction. }
+      destruct (negb (b =? 0)); [cbn; constructor; [assumption|]|]; apply IH; lia. }
+    apply NoDup_emb; assumption. }
+  unfold den. change (c_fill z) with 0.
+  destruct (in_dec Z.eq_dec k ri) as [Hk|Hk].
+  - assert (exists v, In (k, v) (combine ri rd)) as [v Hv].
+    { clear - Hk Hlen. revert rd Hlen. induction ri as [|a r IH]; intros [|b rd] Hlen; cbn in *; try tauto; try discriminate.
+      destruct Hk as [->|Hk]; [exists b; left; reflexivity|]. destruct (IH Hk rd ltac:(lia)) as [v Hv]. exists v. right. assumption. }
+    rewrite (alist_get_In k v) by (try rewrite combine_map_fst by lia; assumption).
+    destruct (Z.eq_dec v 0) as [->|Hv0].
+    + rewrite lookup_notin; [reflexivity|]. rewrite Hent, map_map. cbn [fst]. intros Hin.
+      apply in_map_iff in Hin. destruct Hin as [[kk w] [Ek Hin]]. cbn [fst] in Ek.
+      destruct (Hkeys _ Hin) as [i Ei]. cbn [fst] in Ei. subst kk. apply Hinj in Ek.
+      unfold znth in Ek. cbn in Ek. subst i. apply Hes in Hin. destruct Hin as [Hin Hw].
+      assert (w = 0); [|contradiction].
+      assert (Hndc : NoDup (map fst (combine ri rd))) by (rewrite combine_map_fst by lia; assumption).
+      pose proof (alist_get_In k w (combine ri rd) 0 Hndc Hin) as A1.
+      pose proof (alist_get_In k 0 (combine ri rd) 0 Hndc Hv) as A2. congruence.
+    + assert (Hl : lookup (entries z) (emb k) = Some v).
+      { apply (lookup_In Z _ (emb k) v Hndk). rewrite Hent. apply in_map_iff.
+        exists ([k], v). split; [reflexivity|]. apply Hes. split; assumption. }
+      rewrite Hl. reflexivity.
+  - rewrite alist_get_notin by (rewrite combine_map_fst by lia; assumption).
+    rewrite lookup_notin; [reflexivity|]. rewrite Hent, map_map. cbn [fst]. intros Hin.
+    apply in_map_iff in Hin. destruct Hin as [[kk w] [Ek Hin]]. cbn [fst] in Ek.
+    destruct (Hkeys _ Hin) as [i Ei]. cbn [fst] in Ei. subst kk. apply Hinj in Ek.
+    unfold znth in Ek. cbn in Ek. subst i. apply Hes in Hin. destruct Hin as [Hin _].
+    apply Hk. apply in_combine_l in Hin. assumption.
+Qed.
+
+Lemma SS_lex_NoDup_Z (l : list Z) : StronglySorted Z.lt l -> NoDup l.
+Proof.
+  induction 1 as [|a l Hs IH Hall]; constructor; [|assumption].
+  intros Hin. rewrite Forall_forall in Hall. specialize (Hall _ Hin). lia.
+Qed.
+
+Lemma unravel_1M (M i : Z) : 0 <= i < M -> unravel [1; M] (ravel [size [M]] [i]) = [0; i].
+Proof.
+  intros Hi. cbn [unravel ravel size fold_right].
+  replace (i * 1 + 0) with i by lia. replace (M * 1) with M by lia.
+  rewrite Z.div_small, Z.mod_small, Z.div_1_r by lia. reflexivity.
+Qed.
+
+Definition arg_emb (kd : bool) (k : Z) : idx := if kd then [0; k] else [k].
+
+Lemma arg_emb_inj kd a b : arg_emb kd a = arg_emb kd b -> a = b.
+Proof. unfold arg_emb. destruct kd; intros H; inversion H; reflexivity. Qed.
+
+Lemma ss_argminmax_2d_axis0 (maxm kd : bool) (N M axis : Z) (cs : list idx) (data : list Z) (fill : Z) :
+  (axis = 0 \/ axis = -2) -> 0 < N -> 0 <= M ->
+  Forall (in_range [N; M]) cs ->
+  let rc := map (fun ix => znth ix 0) cs in
+  let ic := map (fun ix => znth ix 1) cs in
+  let r := minmax_args rc ic data N fill maxm in
+  let es := filter (fun e => negb (snd e =? 0)) (combine (map (fun i => [i]) (fst r)) (snd r)) in
+  ss_argminmax maxm (mkCOO [N; M] cs data fill) (Some axis) kd
+  = Ok (mkCOO (if kd then [1; M] else [M]) (map (fun e => arg_emb kd (znth (fst e) 0)) es) (map snd es) 0).
+Proof.
+  intros Hax HN HM Hr rc ic r es. set (x := mkCOO [N; M] cs data fill).
+  unfold ss_argminmax.
+  assert (H1 : (ndimZ x <=? axis) = false) by (destruct Hax as [-> | ->]; reflexivity).
+  rewrite H1. change (ndimZ x =? 0) with false. cbv iota.
+  assert (Hn : norm_axis (ndimZ x) axis = Some 0%nat) by (destruct Hax as [-> | ->]; reflexivity).
+  rewrite Hn. cbn [bind]. change (znth (c_shape x) (Z.of_nat 0)) with N.
+  destruct (Z.eqb_spec N 0) as [E|_]; [lia|]. cbn [bind].
+  change (Z.of_nat 0) with 0. change (ndimZ x =? 1) with false. cbn [andb].
+  change ((0 =? 0) && false) with false. cbv iota.
+  change (py_pop (iota (length (c_shape x))) 0) with (Ok (0, [1])).
+  change (py_pop (c_shape x) 0) with (Ok (N, [M])). cbn [bind].
+  change (ss_transpose x [0; 1]) with x.
+  replace (size [M]) with M by (cbn [size fold_right]; lia).
+  unfold ss_reshape at 1. change (c_shape x) with [N; M]. rewrite idx_eqb_refl. cbn [bind].
+  change (c_coords x) with cs. change (c_data x) with data. change (c_fill x) with fill.
+  fold rc ic. fold r. destruct r as [ri rd] eqn:Er. cbn [fst snd] in es.
+  unfold ss_prune. cbn [c_shape c_coords c_data c_fill]. fold es.
+  (* the reshape (M,) -> (1, M) *)
+  unfold ss_reshape at 1. cbn [c_shape c_coords c_data c_fill].
+  assert (E1 : idx_eqb [M] [1; M] = false) by (cbn [idx_eqb]; apply andb_false_r).
+  rewrite E1.
+  assert (E2 : existsb (Z.eqb (-1)) [1; M] = false).
+  { cbn [existsb]. change (-1 =? 1) with false. destruct (Z.eqb_spec (-1) M); [lia|reflexivity]. }
+  rewrite E2. cbn [bind].
+  assert (E3 : (size [M] =? size [1; M]) = true) by (apply Z.eqb_eq; cbn [size fold_right]; lia).
+  rewrite E3. cbn [negb]. cbn [bind c_shape length].
+  change (filter (fun e : idx * Z => negb (snd e =? 0)) (combine (map (fun i : Z => [i]) ri) rd)) with es.
+  change (py_pop (iota 2) 0) with (Ok (0, [1])). cbn [bind].
+  change (py_insert [1] 0 0) with [0; 1].
+  set (r1 := mkCOO [1; M] _ _ 0). change (ss_transpose r1 [0; 1]) with r1. cbn [bind].
+  (* the coordinates after the reshape *)
+  assert (Hri : forall i, In i ri -> 0 <= i < M).
+  { intros i Hi. assert (Hri' : ri = np_unique ic) by (unfold minmax_args in Er; inversion Er; reflexivity).
+    rewrite Hri' in Hi. apply (proj1 (np_unique_In _ _)) in Hi. unfold ic in Hi. apply in_map_iff in Hi.
+    destruct Hi as [ix [<- Hix]]. rewrite Forall_forall in Hr. specialize (Hr _ Hix).
+    destruct ix as [|a [|b [|c t]]]; cbn in Hr; try tauto; try (unfold znth; cbn; lia). }
+  assert (Hcoords : map (fun ix => unravel [1; M] (ravel [M] ix)) (map fst es)
+                    = map (fun e => [0; znth (fst e) 0]) es).
+  { rewrite map_map. apply map_ext_in. intros [kk v] Hin. cbn [fst].
+    unfold es in Hin. apply filter_In in Hin. destruct Hin as [Hin _]. apply in_combine_l in Hin.
+    apply in_map_iff in Hin. destruct Hin as [i [<- Hi]].
+    change (ravel [M] [i]) with (ravel [size [M]] [i]).
+    rewrite unravel_1M by (apply Hri; assumption). reflexivity. }
+  unfold r1. destruct kd.
+  - f_equal. f_equal. apply Hcoords.
+  - unfold ss_squeeze_axis. cbn [c_shape c_coords c_data c_fill].
+    change (znth [1; M] 0 =? 1) with true. cbn [negb]. f_equal. f_equal.
+    transitivity (map (fun ix => remove_nth ix (Z.to_nat 0)) (map (fun e : idx * Z => [0; znth (fst e) 0]) es)).
+    + f_equal. apply Hcoords.
+    + rewrite map_map. reflexivity.
+Qed.
+
+(* argmax / argmin of a canonical pruned 2-d array along its first axis (non-empty): the result
+   holds, for every index k of the other axis, np.argmax / np.argmin of the dense column k *)
+Lemma argminmax_2d_first_axis_proof (maxm kd : bool) (N M axis : Z) (cs : list idx) (data : list Z) (fill : Z) :
+  (axis = 0 \/ axis = -2) -> 0 < N -> 0 <= M ->
+  canonical Z (mkCOO [N; M] cs data fill) -> prunedb Z.eqb (mkCOO [N; M] cs data fill) = true ->
+  exists z, ss_argminmax maxm (mkCOO [N; M] cs data fill) (Some axis) kd = Ok z
+    /\ c_shape z = (if kd then [1; M] else [M])
+    /\ forall k, den z (arg_emb kd k) = np_argbest maxm (col2 (mkCOO [N; M] cs data fill) N k).
+Proof.
+  intros Hax HN HM Hc Hp. pose proof Hc as [Hr [Hs Hl]]. cbn [c_shape c_coords c_data] in Hr, Hs, Hl.
+  rewrite (ss_argminmax_2d_axis0 maxm kd N M axis cs data fill Hax HN HM Hr). cbv zeta.
+  set (rc := map (fun ix => znth ix 0) cs). set (ic := map (fun ix => znth ix 1) cs).
+  assert (Hz : zip2 rc ic = cs) by (apply (zip2_cols N M); assumption).
+  assert (Hlen : length ic = length rc) by (unfold rc, ic; rewrite !map_length; reflexivity).
+  eexists. split; [reflexivity|]. split; [reflexivity|]. intros k.
+  pose proof (den_pruned_result (arg_emb kd) (if kd then [1; M] else [M])
+                (fst (minmax_args rc ic data N fill maxm)) (snd (minmax_args rc ic data N fill maxm)) k
+                (arg_emb_inj kd)) as Hden.
+  cbv zeta in Hden. rewrite Hden.
+  - rewrite <- Hz in Hc, Hp.
+    pose proof (argminmax_first_proof rc ic data N M fill maxm Hlen HN Hc Hp k) as Hfb.
+    apply first_best_np in Hfb. unfold arg_result in Hfb. rewrite Hz in Hfb. exact Hfb.
+  - unfold minmax_args. cbn [fst]. apply SS_lex_NoDup_Z. apply np_unique_strict.
+  - unfold minmax_args. cbn [fst snd]. apply map_length.
+Qed.
